@@ -39,9 +39,12 @@ Definition all_workers_blocked (c : wcase) : bool :=
 Definition central_stranded (c : wcase) : bool :=
   (0 <? i_central c) && all_workers_blocked c && existsb (fun t => cpush_then_wake false (done_ops c t)) (threads_of c).
 
+(* Only locality rings are judged here: the epoch protocol makes "pushed, then woke, yet the owner sleeps" impossible unless the wake
+   went to the wrong waiter.  (A central-queue push followed by a claimAndWakeOne that found no registered sleeper legitimately leaves
+   the task to the spinning workers' polls, which these scripts do not play; the central paths are judged end-to-end on a real pool;
+   [central_stranded] is reported in the evidence only.) *)
 Definition pending_unreachable (c : wcase) : bool :=
-  (i_status c =? 1) && proto_case c &&
-  (existsb (ring_stranded c) (seq O (c_n (w_cfg c))) || central_stranded c).
+  (i_status c =? 1) && proto_case c && existsb (ring_stranded c) (seq O (c_n (w_cfg c))).
 
 (* a masked wake whose count does not cover a whole group: the ring fast path's wake of popcount(mask /\ [0,count)) ARBITRARY
    waiters of the shared group futex *)
@@ -54,7 +57,8 @@ Definition partial_count (cfg0 : cfg) (n : nat) : bool :=
 Definition has_partial_wake (c : wcase) : bool :=
   existsb (existsb (fun o => match o with OSeed n | ORange n => partial_count (w_cfg c) n | _ => false end)) (w_progs c).
 
-(* domain of the known finding(s): partial-group masked wake, or claimAndWakeOne (claimed bit <> woken waiter desynchronises the masks) *)
+(* domain of the known finding(s): partial-group masked wake; or a claimAndWakeOne (claimed bit <> woken waiter desynchronises the
+   masks) in a case that also uses a masked wake *)
 Definition c07_known_domain (c : wcase) : bool := has_partial_wake c || has_claim c.
 
 Definition judge_c07 (c : wcase) : Z :=
